@@ -965,7 +965,7 @@ def window_cases(ctx, ok):
         return
     W = 1 << 20
     rng = ctx.rng
-    for coder in (["H", "A 8"] if not ctx.quick else [rng.choice(["H", "A 8"])]):
+    for coder in (["H", "A 8"] if not ctx.quick else ["H"]):
         a, b, c = rng.sample(range(1, 200), 3)
         period = rng.choice([3, 5, 7])
         lits = [a, b, c, a + 1, b + 1, c + 1, a + 2][:period]
@@ -973,11 +973,13 @@ def window_cases(ctx, ok):
         items.append(f"c 0 {W + rng.randint(0, 50)} {period - 1}")          # distance = period
         for dist in (W, W - 1, W + 5, W - 2, 1 << 21):
             items.append(f"c 0 {rng.randint(3, 9)} {dist - 1}")              # mult 0: code = distance - 1
-        plan = f"P 1 L 224 3 4 1 1 2 0 1 1 S {coder} 2 4 1 1 4 1 1 2 U pa aa U pa aa"
+        # length tokens must fit between min_symbol 224 and the alphabet: 2^8 for ANS, so a coarser length config there
+        lenconf = "4 1 1" if coder == "H" else "0 0 0"
+        plan = f"P 1 L 224 3 {lenconf} 2 0 1 1 S {coder} 2 4 1 1 4 1 1 2 U pa aa U pa aa"
         line = f"enc 0 {plan} {len(items)} {' '.join(items)}"
         enc, rc, err = ctx.run_model("c04enc", [line], timeout=600)
         if rc != 0 or not enc or not enc[0].startswith("ok"):
-            ctx.notes["window_case"] = "encoder refused: " + (enc[0][:120] if enc else err[-120:])
+            ctx.failed_obligations.append("LZ77 window case: the reference encoder refused the plan: " + (enc[0][:120] if enc else err[-120:]))
             continue
         w = enc[0].split()
         nbits, hexs = int(w[1]), w[2]
